@@ -81,6 +81,15 @@ def cases(tier, inst):
                           ("and", a, ("or", b, a)), ("or", ("and", a, b), a), ("and", a, a), ("or", a, a),
                           ("and", ("or", a, b), ("or", a, ("not", b))), ("or", ("and", a, b), ("and", a, ("not", b)))):
                     yield (vk, t, "op")
+    # universal conditions (for_all over a variable of its own, over the un-nested elements of y.t) as the condition, and
+    # as an operand of a conjunction / disjunction: their negation is the complement like any other
+    from .c18 import FA_LEAVES
+    for f in FA_LEAVES:
+        yield ("fa", f, "op")
+        yield ("fa", f, "fn")
+        for a in (XY_REP if thorough else XY_REP[:2]):
+            for t in (("and", f, a), ("or", f, a), ("or", a, f), ("and", a, ("not", f))):
+                yield ("fa", t, "op")
     if thorough:
         for pair in ((REPRESENTATIVE_8[0], REPRESENTATIVE_8[2]), (XY_REP[0], XY_REP[3])):
             vk = "xy" if pair[0] in XY_REP else "x"
@@ -114,6 +123,8 @@ def queries_of(case):
         vars_, sel = VARS_SELF, (X, Y)
     elif vk == "xyz":
         vars_, sel = VARS3, (X, Y, Z)
+    elif vk == "fa":
+        vars_, sel = VARS3[:2], (X, Y)        # z is the universal variable: declared, not a row variable
     else:
         vars_, sel = VARS3[:2], (X, Y)
     mk = lambda c: ("Q", "an", "setof", sel, (c,), vars_)     # noqa: E731
@@ -159,10 +170,11 @@ def run_case(case, inst):
 
     def body():
         out = []
+        universals = (VARS3[2],) if case[0] == "fa" else ()
         for q in (qc, qn, qnn):
             world = build_world(wspec, inst)       # a fresh world and a fresh build for every variant
-            got = eval_rows(q, world, inst)
-            ref = Q.Ref(world, inst)
+            got = eval_rows(q, world, inst, predeclare=universals)
+            ref = Q.Ref(world, inst, universals=universals)
             exp = [tuple(env[s[1]] for s in q[3]) for env in ref.solutions(q)]
             total = 1
             for v in q[5]:
